@@ -297,7 +297,7 @@ func (c *compiler) compile(tok *token) []instruction {
 	case "(char)":
 		res = append(res, instruction{Code: codePush, A: reg(tok.Char())})
 	case "(float)":
-		c.Globals.Set(tok.Text, Float64(tok.Float64()))
+		c.Globals.Set(tok.Text, Float64(tok.Float64()+0)) // +0: the constant -0.0 is zero, not negative zero
 		res = append(res, instruction{Code: codeConst, A: reg(c.Globals.Index(tok.Text))})
 	case "(string)":
 		c.Globals.Set(tok.Text, String(tok.Unquote()))
